@@ -40,7 +40,8 @@ ASSUMPTIONS = ["value-fidelity half is seeded input generation (no schedule or f
                "aware datetime.time values are not generated (orjson rejects them before the default hook)"]
 
 RICH = ["path", "date", "time", "set", "complex", "nan", "inf", "neg_inf", "datetime", "uuid", "custom",
-        "tuple", "frozen_custom", "mixed_set", "none_set", "empty_set"]
+        "tuple", "frozen_custom", "mixed_set", "none_set", "empty_set", "complex_pz", "complex_nz", "complex_nz2",
+        "complex_pz2", "path2", "date2", "time_us", "zero_set", "negzero_set"]
 
 
 class Custom(object):
@@ -77,6 +78,25 @@ def make_rich(kind):
         return {None, 2.5, 7}
     if kind == "empty_set":
         return set()
+    # equal-comparing but different values (signed zeros), and more than one value per rich type
+    if kind == "complex_pz":
+        return complex(0.0, 1.0)
+    if kind == "complex_nz":
+        return complex(-0.0, 1.0)
+    if kind == "complex_pz2":
+        return complex(2.5, 0.0)
+    if kind == "complex_nz2":
+        return complex(2.5, -0.0)
+    if kind == "path2":
+        return pathlib.Path("relative/dir/../x y")
+    if kind == "date2":
+        return datetime.date(1, 1, 1)
+    if kind == "time_us":
+        return datetime.time(23, 59, 59, 999999)
+    if kind == "zero_set":
+        return {0.0}
+    if kind == "negzero_set":
+        return {-0.0}
     return None
 
 
@@ -180,7 +200,11 @@ def draw_cfg(st):
         # which abstract io base class the file objects derive from (none: duck-typed)
         "bin_base": ["plain", "bufferediobase", "rawiobase", "iobase"][st.choose(4, "bin-base")],
         "txt_base": ["plain", "textiobase", "iobase"][st.choose(3, "txt-base")],
+        # fault-injecting twin: write/flush of the binary file may raise OSError (ENOSPC, EIO, EAGAIN, EINTR)
+        "p_io_error": [0.0, 0.0, 0.0, 0.1][st.choose(4, "p_io")],
     }
+    if cfg["p_io_error"]:
+        cfg["world"] = world = "seq"
     if not cfg["custom_default"]:
         cfg["bad_kinds"] = [k for k in RICH if "custom" not in k]
     if world == "threads":
@@ -193,7 +217,8 @@ def draw_cfg(st):
 def setup(rc, interp):
     e = rc.eliot
     kw = {"json_default": my_default} if rc.cfg["custom_default"] else {}
-    rc.fbin = make_simfile(rc.cfg["bin_base"], "bin", text=False)
+    rc.fbin = make_simfile(rc.cfg["bin_base"], "bin", text=False, fault=rc.dec.stream("fault"),
+                           p_io_error=rc.cfg.get("p_io_error", 0.0), stats=rc.faults)
     rc.ftxt = make_simfile(rc.cfg["txt_base"], "txt", text=True)
     rc.file = rc.fbin
     rc.tap = Tap(rc, deep=False)
@@ -234,7 +259,31 @@ def run_one(seed, dec):
     return base.result(rc, prog, nontrivial=bool(kinds), distinct_extra=kinds)
 
 
+def oracle_io_faults(rc):
+    """With write/flush errors injected into the binary file only the write discipline is checked, narrowly:
+    every write call that was made carries exactly one complete line, no line is handed to the file twice,
+    and the healthy text file is unaffected (one write + one flush per message offered to it)."""
+    seen = set()
+    for c in rc.fbin.calls:
+        if c[0] in ("write", "write!"):
+            x = c[1]
+            if not x.endswith(b"\n") or b"\n" in x[:-1]:
+                raise Violation(("line_shape", {"faults": True}),
+                                "after an I/O error a write call carried %r" % x[:160])
+            if x in seen and b"destination_failure" not in x:
+                raise Violation(("line_twice", {"faults": True}), "the line %r was written twice" % x[:160])
+            seen.add(x)
+    n = len(rc.tap.records)
+    calls = [c[0] for c in rc.ftxt.calls]
+    if calls != ["write", "flush"] * n:
+        raise Violation(("write_discipline", {"faults": True}),
+                        "the healthy file got %d messages as %s" % (n, calls[:12]))
+    return ("io_faults",)
+
+
 def oracle(rc):
+    if rc.cfg.get("p_io_error"):
+        return oracle_io_faults(rc)
     custom_ok = rc.cfg["custom_default"]
     if rc.dirty_seen:
         name, oc, ub = rc.dirty_seen[0]
